@@ -538,7 +538,25 @@ def store_layout(F, S, R):
             (R.ok if ok else R.bad)(key, "argument %d of %s comes from %s" % (ai, c.callee.split("::")[-1], col), [c.where()])
 
 
+def lenient_decoding(F, S, R):
+    """strict decoding: `from_compatible_slice` (accepts unknown trailing table fields, so the accepted bytes are not the canonical encoding of the
+    decoded value) is used only where forward compatibility is wanted: P2P message envelopes and the freezer's own stored blocks."""
+    allowed = {
+        r"^ckb_gen_types::|^<ckb_gen_types|ckb_gen_types::generated": "generated molecule code and the *_should_be_ok helper (trusted base)",
+        r"^ckb_network::protocols::(identify|discovery|ping)": "P2P support protocols (forward compatible by design)",
+        r"^ckb_sync::(synchronizer|relayer|filter)::.*::received": "message envelope of the sync / relay / filter protocols",
+        r"^ckb_sync::": "message envelope of the sync / relay / filter protocols",
+        r"^ckb_freezer::freezer::": "blocks written by this node's own freezer",
+        r"^ckb_store::store::ChainStore::get_block$|^ckb_store::store::": "frozen block read back from the freezer",
+        r"^ckb_light_client_protocol_server::": "message envelope",
+        r"^ckb_network_alert::|^ckb_rpc::": "not consensus data",
+    }
+    K.whocalls(R, "whocalls/lenient-decoding", F, r"::from_compatible_slice$", allowed, min_sites=5,
+               what="only message envelopes and the freezer decode leniently; consensus data (cellbase witness, scripts, headers) is decoded with from_slice")
+
+
 def run(F, S, R, tier):
+    R.guard("whocalls/lenient-decoding", lambda: lenient_decoding(F, S, R))
     R.guard("conv", lambda: conv(F, S, R))
     R.guard("sibling/int-codec", lambda: endianness(F, R))
     R.guard("prov/hash-scope", lambda: hash_scope(F, S, R))
